@@ -166,7 +166,38 @@ def job_scale(res, k, n):
         else: res.inc(f'{nm}(c*x): solver found a scale where the ratio moves by more than 1e-9 relative, native replays at 2^-13, 2^13 and the model value agree to 1e-9 dB')
     else: res.inc(f'{nm}(c*x): undecided')
 
-JOBFNS = {'awgn': job_awgn, 'seed': job_seed, 'repro': job_repro, 'randi': job_randi, 'scale': job_scale}
+def tone3(n):
+    """fundamental at 0.0431 cycles/sample (off-bin), harmonics at -20 and -30 dBc, fixed phases, no noise: thd(3) = 10*log10(1e-2 + 1e-3), sinad = -thd"""
+    w = 2 * math.pi * 0.0431
+    return [math.sin(w * i) + 0.1 * math.sin(2 * w * i + 0.3) + 10 ** -1.5 * math.sin(3 * w * i + 1.1) for i in range(n)]
+THD3 = 10 * math.log10(1e-2 + 1e-3)
+def o_measure_large(spec, r, extra):
+    if r['status'] != 'ok': return True, f"measure: {r['status']} {r.get('stderr', '')[-300:]}"
+    nm = ['snr', 'sinad', 'thd'][spec[0][1]]; exp = -THD3 if spec[0][1] == 1 else THD3
+    return not abs(r['ret'] - exp) <= 1.0, f"{nm} of a noise-free tone with harmonics at -20 / -30 dBc, length {spec[2][1]}: {r['ret']!r} dB, analytic value {exp:.3f} dB"
+ORACLES['measure_large'] = o_measure_large
+def job_measure_large(res, k, n):
+    """ground obligation at lengths where the index / normalisation products of the periodogram reach 2^31 (length * nfft/2 from length 65536): the interpreted real code runs on one constructed tone with every
+    signed-overflow / bounds / conversion obligation active; the value must be the analytic one within 1 dB"""
+    mod, so = load(HARNESS); nm = ['snr', 'sinad', 'thd'][k]; x = tone3(n); spec = [('i32', k), ('pf64', x), ('i32', n), ('f64', 1.0)]
+    m = Machine(mod, max_steps=1_500_000_000)
+    try: r, outs, _ = sym_call(m, 'h_measure', spec, 'f64')
+    except UB as e:
+        res.absorb(m)
+        if not confirm(res, PID, HARNESS, 'h_measure', spec, 'f64', 'measure_large', ORACLES, f'measure:{nm}:large-n', f'{nm} length {n}: {str(e)[:200]}', timeout=120, suspect_is_inconclusive=False):
+            confirm(res, PID, HARNESS, 'h_measure', spec, 'f64', 'measure_large', ORACLES, f'measure:{nm}:large-n', f'{nm} length {n}: {str(e)[:200]}', timeout=300, san=True)
+        return
+    except (Budget, Throw) as e: res.absorb(m); res.inc(f'{nm} length {n}: {type(e).__name__} {str(e)[:120]}'); return
+    res.absorb(m); exp = -THD3 if k == 1 else THD3
+    ok = abs(r - exp) <= 1.0 and not m.ub_found
+    sol = z3.Solver(); sol.add(z3.Not(z3.BoolVal(bool(ok))))
+    if timed_check(sol, res) == z3.unsat: res.ob(True, 'ground', f'{nm} length {n}: {r:.4f} dB (analytic {exp:.3f}), no integer overflow / out-of-bounds access on the way')
+    else:
+        why = f'{nm} length {n}: got {r!r} dB, analytic {exp:.3f}' + (f'; UB {str(m.ub_found[:1])[:200]}' if m.ub_found else '')
+        if not confirm(res, PID, HARNESS, 'h_measure', spec, 'f64', 'measure_large', ORACLES, f'measure:{nm}:large-n', why, timeout=120, suspect_is_inconclusive=not m.ub_found):
+            if m.ub_found: confirm(res, PID, HARNESS, 'h_measure', spec, 'f64', 'measure_large', ORACLES, f'measure:{nm}:large-n', why, timeout=300, san=True)
+
+JOBFNS = {'awgn': job_awgn, 'seed': job_seed, 'repro': job_repro, 'randi': job_randi, 'scale': job_scale, 'measure_large': job_measure_large}
 
 def selftest(st):
     calls = [('h_seed_gen', [('i32', s_), ('i32', k), ('i32', 6), ('i32', 0xfffffffd), ('i32', 9), ('pf64', [0.0] * 6)], 'i32') for s_ in (0, 1, 12345) for k in range(7)]
@@ -182,14 +213,15 @@ def main(tier, seed):
         for k in range(7): jobs.append((f'replay seed={s_} {GN[k]}', 'repro', dict(seed=s_, k=k, n=5, lo=-3, hi=9), 600))
     for (lo, hi) in [(1, 6), (5, 5), (-7, -2), (0, 1), (-3, 9), (0, 255)] + ([] if q else [(1, 1000), (-100, 100), (0, 2 ** 20)]): jobs.append((f'randi bounds {lo},{hi}', 'randi', dict(lo=lo, hi=hi), 900))
     for k in range(3): jobs.append((f'scale invariance {k}', 'scale', dict(k=k, n=32 if q else 64), 3000))
+    for (k, n) in ([(1, 65536)] if q else [(1, 65536), (2, 65536), (2, 100000), (1, 131072), (2, 262144)]): jobs.insert(0, (f'measure large k={k} n={n}', 'measure_large', dict(k=k, n=n), 3000))
     return run_property(PID, tier, HARNESS, jobs, JOBFNS,
         level_text='PARTIAL. awgn: with the input symbolic the added noise is g_i * sigma for ONE sigma and sigma^2 * (#components) == mean|x|^2 * 10^(-snr/10) (polynomial identity, real and complex). '
                    'rng(seed): from a havocked engine every state word afterwards is a term over the seed alone (symbolic 32-bit seed through the real mt19937 seeding); replay of every generator after interleaved draws; '
                    'randi: raw 32-bit engine outputs symbolic, result inside its inclusive bounds on every path of the real uniform_int_distribution (3 draws). snr / sinad / thd of c*x for symbolic c in (1e-3, 1e3) on a concrete '
-                   'signal: one feasible analysis path and a power ratio independent of c.',
+                   'signal: one feasible analysis path and a power ratio independent of c. Ground: sinad / thd of a constructed noise-free tone at lengths from 65536 (where length * nfft/2 reaches 2^31) through the interpreted code with overflow / bounds obligations, value within 1 dB of the analytic one.',
         assumptions=['the unit-variance normals g_i are the values randn yields for the same seed (concrete)', 'rejection loops followed for at most 3 engine draws'],
-        bounds={'awgn': 'n = 3..6 samples, snr in {-6, 0, 10, 30} dB', 'seeds': '3 (quick) / 7 concrete seeds for replay; the seeding step itself for all 2^32 seeds', 'randi ranges': '6 (9) ranges incl. single value and negative'},
-        outside=['statistical calibration of the noise (distribution shape, 6-sigma power tolerance)', 'the 0.1 dB / 1.5 dB accuracy of thd / sinad on specified tones (numeric accuracy of a concrete analysis: no quantified input left for a solver)'],
+        bounds={'awgn': 'n = 3..6 samples, snr in {-6, 0, 10, 30} dB', 'seeds': '3 (quick) / 7 concrete seeds for replay; the seeding step itself for all 2^32 seeds', 'randi ranges': '6 (9) ranges incl. single value and negative', 'large lengths (ground)': 'sinad at 65536 samples (quick); sinad / thd at 65536, 100000, 131072, 262144 (thorough): one constructed tone each, interpreted with overflow / bounds obligations'},
+        outside=['lengths between the small symbolic sizes and the ground lengths', 'statistical calibration of the noise (distribution shape, 6-sigma power tolerance)', 'the 0.1 dB / 1.5 dB accuracy of thd / sinad on specified tones (numeric accuracy of a concrete analysis: no quantified input left for a solver)'],
         seed=seed, selftest=selftest)
 
 def replay(path): return replay_main(path, ORACLES)
